@@ -2767,17 +2767,27 @@ class HasTraits(CHasTraits, metaclass=MetaHasTraits):
         del locked[name]
 
     def _sync_trait_items_modified(self, object, name, old, event):
-        n0 = event.index
-        n1 = n0 + len(event.removed)
         name = name[:-6]
         info = self.__sync_trait__
+        if name not in info:
+            return
+        index = event.index
+        if not isinstance(index, slice):
+            # An integer index stands for the run of removed items.
+            index = slice(index, index + len(event.removed))
+        elif not event.added:
+            # An extended-slice deletion: nothing to assign.
+            index = None
         locked = info[""]
         locked[name] = None
         for object, object_name in info[name].values():
             object = object()
             if object_name not in object._get_sync_trait_info()[""]:
                 try:
-                    getattr(object, object_name)[n0:n1] = event.added
+                    if index is None:
+                        del getattr(object, object_name)[event.index]
+                    else:
+                        getattr(object, object_name)[index] = event.added
                 except:
                     pass
 
